@@ -149,7 +149,7 @@ indent_all_but_first = Contract(
     note="for a text of ONE line (no line boundary): textwrap.indent is modelled (prefix + text unless blank), split('\\n') of a text without '\\n' is [text]; "
          "texts of several lines are the bounded stand-in's",
     cases=[Case("one-line,level=%d" % k, {"s": "str", "indent_level": ("lit", k), "wipe_indents": False},
-                assume=["all((c in s) == False for c in '\\n\\r\\x0b\\x0c\\x1c\\x1d\\x1e\\x85')"]) for k in (0, 1, -1)],  # (level 2: the same claim, but both solvers time out on the 8-blank prefix; emit_param_str uses the default level 1)
+                assume=["all((c in s) == False for c in '\\n\\r\\x0b\\x0c\\x1c\\x1d\\x1e\\x85')"]) for k in (0, 1, 2, -1)],
     ensures=[
         Clause("IABF-one-line", "s.endswith(result) and result[:1] not in (' ', '\\t', '\\x1f', '\\xa0')",
                note="a one-line text is returned without leading blanks and otherwise verbatim (a suffix of it): nothing is indented, nothing appended"),
